@@ -348,8 +348,11 @@ def _worker_run(chunk):
             r.setdefault("model", [])
             r.setdefault("impl", [])
         except Exception as e:
-            r = {"model": [], "impl": [], "oracle": [], "tags": ["harness-error"], "key": None,
-                 "error": "%s: %s\n%s" % (type(e).__name__, e, traceback.format_exc()[-1500:])}
+            # the plug-ins catch what the property allows to be raised; anything that still escapes is
+            # behaviour the case did not expect from the code under test -> judged like an oracle failure
+            r = {"model": [], "impl": [], "tags": ["unexpected-exception"], "key": None,
+                 "oracle": ["unexpected %s while running the case: %s | %s" % (
+                     type(e).__name__, str(e)[:200], traceback.format_exc()[-600:].replace("\n", " / "))]}
         out.append((idx, case, r))
     return out
 
@@ -466,11 +469,6 @@ def check(prop_name, tier, seed, replay=None):
                             corpus.append(json.load(f)["case"])
             cases = corpus + list(prop.generate(tier, rng))
         results = run_cases(prop, cases, root)
-        harness_errors = [(i, c, r) for i, c, r in results if "error" in r]
-        if harness_errors:
-            i, c, r = harness_errors[0]
-            print("HARNESS-ERROR property=%s case=%d %s" % (pid, i, r["error"]), file=sys.stderr)
-            raise RuntimeError("harness error in %d case(s)" % len(harness_errors))
         mism, nlines = ([], 0)
         corr_error = None
         if lean["ok"] or os.path.exists(os.path.join(LEAN_DIR, ".lake", "build", "bin", prop.DRIVER or "-")):
